@@ -100,6 +100,11 @@ def maps_at_cls(w, t, o) -> bool:
             if v is not None and not maps_at_cls(w, f["ty"], v):
                 return False
         return True
+    if k == "union":
+        # a union position is a class position: None, or a mapping that suits every member it could be handed to
+        if o[0] == "N":
+            return True
+        return o[0] == "d" and all(maps_at_cls(w, ("cls", m), o) for m in t[1])
     raise ValueError(t)
 
 
@@ -121,8 +126,28 @@ def inst_classes(o, acc=None):
     return acc
 
 
-def common(w, ty, tup, x=None) -> bool:
+def union_creatable(S, u) -> bool:
+    """can a structure hook for the union be obtained at all (C12: "for which a structure hook can be obtained without
+    custom configuration")?  Decided on the implementation, once per union and world."""
+    cache = S.__dict__.setdefault("_union_creatable", {})
+    key = (tuple(u[1]), u[2])
+    if key not in cache:
+        try:
+            Converter().get_structure_hook(S.R.ty(u))
+            cache[key] = True
+        except Exception:  # noqa: BLE001
+            cache[key] = False
+    return cache[key]
+
+
+def common(w, ty, tup, x=None, S=None) -> bool:
     """is the type (and the class of every instance inside the value) supported by both converter classes?"""
+    if S is not None:
+        roots = [ty] + ([("cls", ci) for ci in inst_classes(x)] if x is not None else [])
+        for r in roots:
+            for u in gen.reach_unions(w, r):
+                if not union_creatable(S, u):
+                    return False  # no hook can be obtained for a union the type reaches: not a supported type
     for g in (True, False):
         cfg = {"gen": g, "tuple": tup, "detailed": True}
         if not gen.supported(cfg, w, ty):
@@ -138,7 +163,7 @@ def commonise_type(t):
     if t is None or isinstance(t, str):
         return t
     k = t[0]
-    if k in ("enum", "lit", "cls", "td"):
+    if k in ("enum", "lit", "cls", "td", "union"):
         return t
     if k == "tup":
         return ("tup", [commonise_type(x) for x in t[1]])
@@ -163,7 +188,7 @@ def commonise_world(w):
 
 def my_worlds(chk, drv, n_worlds):
     """like streams.worlds; 3 worlds in 4 hold attrs classes / dataclasses only and are commonised"""
-    G = gen.Gen(chk.rng)
+    G = gen.Gen(chk.rng, unions=True)
     made = attempts = 0
     while made < n_worlds and attempts < n_worlds * 3:
         attempts += 1
@@ -339,7 +364,7 @@ def run(chk: framework.Check):
         for ty, x, xv in streams.typed_values(chk, G, S, w, n_types=4, n_values=1, any_stable=False):
             ty = commonise_type(ty) if chk.rng.random() < 0.75 else ty
             for tup in (False, True):
-                if not common(w, ty, tup, x):
+                if not common(w, ty, tup, x, S):
                     chk.note("outside-common-support")
                     continue
                 sname = "tuple" if tup else "dict"
@@ -355,6 +380,8 @@ def run(chk: framework.Check):
                           sample={"op": "unstructure", "strategy": sname, "type": terms.ty_sx(ty), "value": terms.canon_sx(x),
                                   "Converter": outcome(uG), "BaseConverter": outcome(uB)})
                 chk.note("un:strategy:" + sname, "ty:" + tyk)
+                if gen.reach_unions(w, ty):
+                    chk.note("union-reachable:" + sname)
                 sc = drv.ask("C06USCOPE %s %s %s" % (terms.cfg_sx(cG), terms.ty_sx(ty), terms.obj_sx(x)))
                 in_scope = sc.startswith("(1 1 1 1 ")
                 chk.note("un:theorem-hypotheses-hold" if in_scope else "un:outside-theorem-hypotheses:" + sc[:9] + ")")
@@ -386,7 +413,12 @@ def run(chk: framework.Check):
                 for kind, p, pv in streams.payloads(chk, G, S, w, uG[1]):
                     maps = maps_at_cls(w, ty, p)
                     sc = drv.ask("C06SCOPE %s %s %s" % (terms.cfg_sx(cG), terms.ty_sx(ty), terms.obj_sx(p)))
+                    # (the two walkers differ on str/bytes payloads at collection positions -- Lean: not iterated, answered
+                    # `unmodelled` by ST; Python: iterated into characters.  ST follows only the member a union hook picks,
+                    # the hypothesis looks at every member, so below a union only the direction "Python holds, Lean does
+                    # not" is compared)
                     if (not tup and sc[3:4] != ("1" if maps else "0")
+                            and (maps or not gen.reach_unions(w, ty))
                             and reply_kind(S.model_st(dict(cG, detailed=False), ty, p)) != "unmodelled"):
                         scope_fail.append((sc, {"world": w, "ty": ty, "payload": p, "op": "scope", "tuple": tup}))
                     applies = tup or maps
